@@ -25,7 +25,7 @@ RECURSIVE StrsOver(_, _)
 StrsOver(S, n) == IF n = 0 THEN {<<>>} ELSE LET R == StrsOver(S, n - 1) IN R \cup {Append(s, c) : s \in {t \in R : Len(t) = n - 1}, c \in S}
 ArgStrs == StrsOver(ArgSigma, MaxTotal)
 NameStrs == StrsOver(NameSigma, 3) \cup
-  { <<99,111,109,109,97,110,100,95,108,105,115,116,95,98,101,103,105,110>>, CLOKBEGIN, CLEND, COMMANDLIST,
+  { <<99,109,100>>, <<99,111,109,109,97,110,100,95,108,105,115,116,95,98,101,103,105,110>>, CLOKBEGIN, CLEND, COMMANDLIST,
     CLEND \o <<120>>, <<120>> \o CLEND, <<67>> \o Tail(CLEND), <<105,100,108,101>>, <<110,111,105,100,108,101>>, <<112,108,97,121,49>>, <<49,112,108,97,121>> }
 FVals == StrsOver(FSigma, MaxFVal) \cup { <<65,78,68>>, <<32,65,78,68,32>>, <<97,41,32,65,78,68,32,40,98>>, <<33,40>>, <<10>>, <<97,0>> }
 ARTIST == <<65,114,116,105,115,116>>
